@@ -40,7 +40,9 @@ def xstep (cfg : Cfg) (x : XState) (st : Step) (n : Nat) : XState :=
     else { x with core := core' }
   | .cConnect c =>
     -- mirrors `engine->connect(host, port, tls)`: the requested mode is passed on (skeleton fact `connectPassesArgs`)
-    if (x.core.callers c).pc == .haveLock then { x with core := core', sessTls := setN x.sessTls x.core.nextSid (x.reqTls c) }
+    -- `Cfg.args` is load-bearing here: were the arguments not passed on unchanged, the engine would be asked for mode 0
+    if (x.core.callers c).pc == .haveLock then
+      { x with core := core', sessTls := setN x.sessTls x.core.nextSid (if cfg.args then x.reqTls c else 0) }
     else { x with core := core' }
   | _ =>
     match closeBegins x.core st with
